@@ -38,7 +38,11 @@ def rto_cases(draw, tier="quick"):
          "gmrf_order": draw(st.sampled_from([1, 2])), "gmrf_prec": draw(gen.logpos(-0.5, 0.7)),
          "interface": draw(st.sampled_from(["experimental", "legacy", "legacy_tuple"])),
          "x0": draw(gen.vec(n, -2, 2)), "x0b": draw(gen.vec(n, -2, 2)),
-         "sparse_switch": draw(st.sampled_from(["below", "below", "above"]))}
+         "sparse_switch": draw(st.sampled_from(["below", "below", "above"])),
+         # overall scale of the prior standard deviations (1e-4: covariance entries ~1e-8 and smaller)
+         "pscale_pow": draw(st.sampled_from([0, 0, 0, -4])),
+         # the prior object was first set up with other values, used, and then given its values through the public setters
+         "prior_reassigned": draw(st.sampled_from([False, False, True]))}
     if c["interface"] == "legacy_tuple":
         c["liks"] = c["liks"][:1]
         c["prior"] = "gauss"
@@ -51,10 +55,29 @@ def build_rto_target(c):
     mu = A(c["pmean"]) if c["pmean_kind"] == "vector" else np.zeros(n)
     if c["prior"] == "gauss":
         pkw, Sx = c15.form_arg(c["pform"], c["pvar"], c["PG"])
-        x = cuqi.distribution.Gaussian(mu.copy(), **pkw, name="x")
+        ps = 10.0 ** c.get("pscale_pow", 0)
+        if ps != 1.0:
+            (key, val), = pkw.items()
+            fac = {"cov": ps ** 2, "prec": ps ** -2, "sqrtcov": ps, "sqrtprec": 1 / ps}[key]
+            pkw = {key: val * fac}
+            Sx = Sx * ps ** 2
+        if c.get("prior_reassigned"):
+            (key, val), = pkw.items()
+            x = cuqi.distribution.Gaussian(mu * 0.5 + 0.1, **{key: val * 3.0}, name="x")
+            _ = (x.sqrtprec, x.logd(np.zeros(n)), x.sqrtprecTimesMean)
+            x.mean = mu.copy()
+            setattr(x, key, val)
+        else:
+            x = cuqi.distribution.Gaussian(mu.copy(), **pkw, name="x")
         Pinv = np.linalg.inv(Sx)
     else:
-        x = cuqi.distribution.GMRF(mu.copy(), c["gmrf_prec"], bc_type="zero", order=c["gmrf_order"], name="x")
+        if c.get("prior_reassigned"):
+            x = cuqi.distribution.GMRF(mu * 0.5 + 0.1, c["gmrf_prec"] * 3.0, bc_type="zero", order=c["gmrf_order"], name="x")
+            _ = (x.sqrtprec, x.logd(np.zeros(n)), x.sqrtprecTimesMean)
+            x.mean = mu.copy()
+            x.prec = c["gmrf_prec"]
+        else:
+            x = cuqi.distribution.GMRF(mu.copy(), c["gmrf_prec"], bc_type="zero", order=c["gmrf_order"], name="x")
         D = c20.ref_D(n, "zero", c["gmrf_order"])
         Pinv = c["gmrf_prec"] * D.T @ D
     ys, parts = [], []
@@ -134,7 +157,8 @@ def _run_rto(c, rec):
     nontriv = any(lk["m"] >= 2 for lk in c["liks"]) and (nl >= 2 or c["pmean_kind"] == "vector" or c["prior"] == "gmrf" or
                                                          any(lk["form"] != "cov_scalar" for lk in c["liks"]) or c["pform"] != "cov_scalar")
     tags = {"interface": c["interface"], "nlik": nl, "prior": c["prior"], "pmean": c["pmean_kind"],
-            "backing": "+".join(sorted(set(lk["backing"] for lk in c["liks"]))), "sparse_switch": c.get("sparse_switch", "below")}
+            "backing": "+".join(sorted(set(lk["backing"] for lk in c["liks"]))), "sparse_switch": c.get("sparse_switch", "below"),
+            "pscale_pow": c.get("pscale_pow", 0), "prior_reassigned": bool(c.get("prior_reassigned"))}
     if rec.classify(tags, nontriv):
         return
     refused, built = refuses(lambda: build_rto_target(c))
